@@ -243,6 +243,7 @@ fn worker(args: &[String]) {
     let mut inter = BTreeSet::new();
     let mut states = BTreeSet::new();
     let mut jf = std::fs::OpenOptions::new().create(true).append(true).open(journal).unwrap();
+    std::env::set_var("VERIF_JOURNAL", journal);
     let mut i = start;
     let mut done = 0;
     while done < count {
@@ -601,10 +602,17 @@ fn cmd_run(prop: &str, tier: &str, seed: u64, workers: u64, hists_override: Opti
             } else {
                 // the worker died (abort, signal, watchdog): the journal names the history
                 let jl = std::fs::read_to_string(&j).unwrap_or_default();
-                let last: Option<u64> = jl.lines().last().and_then(|l| l.parse().ok());
+                let last: Option<u64> = jl.lines().filter(|l| *l != "torn").last().and_then(|l| l.parse().ok());
+                let torn = jl.lines().last() == Some("torn");
                 if let Some(h) = last {
                     use std::os::unix::process::ExitStatusExt;
-                    deaths.push((h, format!("worker died: status {:?} signal {:?}", st.code(), st.signal())));
+                    if torn {
+                        // the peer's durable store had been damaged in place: outside C01's domain (previous data
+                        // "the interpreter itself produced"); named, counted, never a violation
+                        println!("note: history {h} killed its worker after a torn-store fault (status {:?} signal {:?}); outside the property's domain", st.code(), st.signal());
+                    } else {
+                        deaths.push((h, format!("worker died: status {:?} signal {:?}", st.code(), st.signal())));
+                    }
                     let done = (h - start) / workers + 1;
                     if done < count && deaths.len() < 20 {
                         restart = Some((h + workers, count - done));
